@@ -53,9 +53,11 @@ CATALOG = [
     ("UpCCGSD", ["H2", "H2", "H4", "H3_doublet", "H4_f0"], ["jw", "bk", "scbk", "jkmn"], [False, True], [{"k": 1}, {"k": 2}, {"k": 3}, {"k": 4}, {"k": 2, "reference_state": "zero"}, {"k": 5}]),
     ("UCCGD", ["H2", "H2", "H4"], ["jw", "bk", "jkmn"], [False, True], [{}]),
     ("HEA", ["H2", "H4", "H4_f03"], ["jw", "bk", "scbk"], [False, True], [{"n_layers": 1, "rot_type": "euler"}, {"n_layers": 2, "rot_type": "euler"},
-                                                                   {"n_layers": 3, "rot_type": "real"}, {"n_layers": 2, "rot_type": "real"}]),
+                                                                   {"n_layers": 3, "rot_type": "real"}, {"n_layers": 2, "rot_type": "real"},
+                                                                   {"n_layers": 1, "rot_type": "euler", "reference_state": "zero"},
+                                                                   {"n_layers": 2, "rot_type": "real", "reference_state": "zero"}]),
     ("QMF", ["H2", "H4", "H4_cation"], ["jw", "bk", "scbk", "jkmn"], [True, False], [{}]),
-    ("QCC", ["H2", "H4"], ["jw", "bk", "scbk"], [True], [{}, {"max_qcc_gens": 2}]),
+    ("QCC", ["H2", "H4"], ["jw", "bk", "scbk"], [True], [{}, {"max_qcc_gens": 2}, {"qmf_from_ansatz": True}, {"qmf_from_ansatz": True, "max_qcc_gens": 2}]),
     ("ILC", ["H2", "H4"], ["jw", "bk", "scbk"], [True], [{}, {"max_ilc_gens": 2}]),
     ("VSQS", ["H2", "H2", "H4"], ["jw", "bk", "scbk"], [False, True], [{"intervals": 2, "trotter_order": 1}, {"intervals": 3, "trotter_order": 2},
                                                                         {"intervals": 2, "trotter_order": 1, "h_nav": True}, {"intervals": 3, "trotter_order": 1, "h_nav": True},
@@ -167,11 +169,17 @@ class AnsatzWorld(World):
         if name == "UCCGD":
             return ag.UCCGD(mol, mapping=mp, up_then_down=utd)
         if name == "HEA":
-            return ag.HEA(mol, mapping=mp, up_then_down=utd, n_layers=o["n_layers"], rot_type=o["rot_type"])
+            return ag.HEA(mol, mapping=mp, up_then_down=utd, n_layers=o["n_layers"], rot_type=o["rot_type"], reference_state=o.get("reference_state", "HF"))
         if name == "QMF":
             return ag.QMF(mol, mapping=mp, up_then_down=utd)
         if name == "QCC":
-            return ag.QCC(mol, mapping=mp, up_then_down=utd, **o)
+            kw = {k: v for k, v in o.items() if k != "qmf_from_ansatz"}
+            if o.get("qmf_from_ansatz"):
+                # the documented way of chaining: the (variational) circuit of a QMF ansatz is handed to QCC
+                q = ag.QMF(mol, mapping=mp, up_then_down=utd)
+                q.build_circuit()
+                kw.update(qmf_circuit=q.circuit, qmf_var_params=q.var_params)
+            return ag.QCC(mol, mapping=mp, up_then_down=utd, **kw)
         if name == "ILC":
             return ag.ILC(mol, mapping=mp, up_then_down=utd, **o)
         if name == "VSQS":
@@ -522,6 +530,17 @@ class AnsatzWorld(World):
     def _compare(self, site, theta, when):
         """a.circuit must be equivalent to fresh(theta).circuit."""
         ctx, a = self.ctx, self.a
+        ga = self._ref_gates(a.circuit)           # taken before any other ansatz object is built
+        pre = []
+        by = getattr(self, "bystander", None)
+        if by is not None:
+            # the object built for the previous comparison is still alive: updating `a` must not have changed it
+            ctx.check("C07.other_ansatz_object_untouched")
+            if self._ref_gates(by[0].circuit) != by[1]:
+                pre.append(Violation("C07", "another-ansatz-object-changed", site, {"when": when, "config": {k: v for k, v in self.config.items() if k != "circuit"}}))
+            self.bystander = None
+        if pre:
+            return pre
         try:
             f = quiet(self._factory)
             quiet(f.build_circuit, [float(x) for x in theta])
@@ -533,7 +552,10 @@ class AnsatzWorld(World):
         w = max(a.circuit.width, f.circuit.width, 1)
         if w > 10:
             return []
-        ga, gf = self._ref_gates(a.circuit), self._ref_gates(f.circuit)
+        gf = self._ref_gates(f.circuit)
+        if self._ref_gates(a.circuit) != ga:
+            return [Violation("C07", "ansatz-circuit-changed-by-building-another-object", site, {"when": when, "config": {k: v for k, v in self.config.items() if k != "circuit"}})]
+        self.bystander = (f, gf)
         rng = random.Random(int(ctx.run_seed) % (2 ** 31))
         cols_a, cols_f = [], []
         for i in range(3):
